@@ -31,6 +31,13 @@ Universe `U ty v = ok ty v && RTS ty v`:
 
 The binary protocol has no alternative forms (fixed-width integers, one header layout per field / list / map); only the
 message header has two (strict / non-strict), outside `Unmarshal`. Nothing is stated for it here.
+
+Nesting depth: since the fix 9c8d6b4 the decoder refuses to enter a list / set / map / struct at depth ≥ maxDepth = 10000
+(`Gen.c_thrift_maxDepth`), so a type nested deeper than maxDepth containers (`nest ty`) is rejected whatever the encoding;
+the acceptance theorems carry the hypothesis `d + nest ty ≤ maxDepth` (`nest ty ≤ maxDepth` for `unmarshal`, which starts
+at depth 0). It constrains the TYPE only and is deliberately not part of `U` / `Conf`. The same fix made the struct loop
+reject a header byte `dddd 0000` with `dddd ≠ 0` (`deltaStop`); a conformant field header never has the type nibble 0
+(`FieldHdrB` uses `tcode` ∈ 1 … 12), so long-form and short-form headers are accepted as before.
 -/
 namespace Enc.Lemmas.ThriftAccept
 open Enc Enc.Model.Thrift Enc.Lemmas.ThriftPrim Enc.Lemmas.ThriftSkip Enc.Lemmas.ThriftSpec
@@ -42,16 +49,18 @@ theorem U_split {ty : Ty} {v : Val} (h : U ty v = true) : tyOK ty = true ∧ val
 
 /-- **decoder level**: every conformant encoding, followed by anything, is consumed exactly and decoded to `norm ty v` -/
 theorem accept_decode (strict : Bool) (ty : Ty) (v : Val) (h : U ty v = true) (bs : Bytes) (hc : Conf ty v bs)
-    (fuel : Nat) (rest : Bytes) (hf : bs.length + depth ty ≤ fuel) :
-    decode .compact strict fuel ty (bs ++ rest) (zeroOf ty) = .ok (norm ty v, rest) := by
+    (d fuel : Nat) (rest : Bytes) (hd : d + nest ty ≤ Gen.c_thrift_maxDepth) (hf : bs.length + depth ty ≤ fuel) :
+    decode .compact strict d fuel ty (bs ++ rest) (zeroOf ty) = .ok (norm ty v, rest) := by
   obtain ⟨ht, hx, hR⟩ := U_split h
-  exact accept_norm strict ty v ht hx hR bs hc fuel rest hf
+  exact accept_norm strict ty v d hd ht hx hR bs hc fuel rest hf
 
-/-- **C13 (second half), entry point.** On `U`, `Unmarshal` (compact protocol, strict or not) accepts EVERY conformant
+/-- **C13 (second half), entry point.** On `U`, for a type nested at most maxDepth containers deep (`hd`; deeper types
+are rejected by the decoder since the fix 9c8d6b4), `Unmarshal` (compact protocol, strict or not) accepts EVERY conformant
 encoding `bs` of `v` and returns the normal form `norm ty v`. -/
-theorem accept_unmarshal (strict : Bool) (ty : Ty) (v : Val) (h : U ty v = true) (bs : Bytes) (hc : Conf ty v bs) :
+theorem accept_unmarshal (strict : Bool) (ty : Ty) (v : Val) (h : U ty v = true)
+    (hd : nest ty ≤ Gen.c_thrift_maxDepth) (bs : Bytes) (hc : Conf ty v bs) :
     unmarshal .compact strict ty bs = .ok (norm ty v) := by
-  have := accept_decode strict ty v h bs hc (4 * bs.length + 64 + depth ty) [] (by omega)
+  have := accept_decode strict ty v h bs hc 0 (4 * bs.length + 64 + depth ty) [] (by omega) (by omega)
   rw [List.append_nil] at this
   unfold unmarshal
   rw [this]
@@ -70,20 +79,25 @@ theorem conf_marshal (ty : Ty) (v : Val) (h : U ty v = true) : Conf ty v (marsha
 
 /-- **same result as the canonical encoding**: any two conformant encodings of the same value are decoded to the same
 value; in particular every conformant encoding gives what `Unmarshal(Marshal(v))` gives. -/
-theorem accept_same (strict : Bool) (ty : Ty) (v : Val) (h : U ty v = true) (bs bs' : Bytes)
+theorem accept_same (strict : Bool) (ty : Ty) (v : Val) (h : U ty v = true)
+    (hd : nest ty ≤ Gen.c_thrift_maxDepth) (bs bs' : Bytes)
     (hc : Conf ty v bs) (hc' : Conf ty v bs') :
     unmarshal .compact strict ty bs = unmarshal .compact strict ty bs' := by
-  rw [accept_unmarshal strict ty v h bs hc, accept_unmarshal strict ty v h bs' hc']
+  rw [accept_unmarshal strict ty v h hd bs hc, accept_unmarshal strict ty v h hd bs' hc']
 
-theorem accept_same_as_canonical (strict : Bool) (ty : Ty) (v : Val) (h : U ty v = true) (bs : Bytes)
-    (hc : Conf ty v bs) :
+theorem accept_same_as_canonical (strict : Bool) (ty : Ty) (v : Val) (h : U ty v = true)
+    (hd : nest ty ≤ Gen.c_thrift_maxDepth) (bs : Bytes) (hc : Conf ty v bs) :
     unmarshal .compact strict ty bs = unmarshal .compact strict ty (Spec.Thrift.encode .compact ty v) :=
-  accept_same strict ty v h bs _ hc (conf_canonical ty v h)
+  accept_same strict ty v h hd bs _ hc (conf_canonical ty v h)
 
-theorem accept_same_as_marshal (strict : Bool) (ty : Ty) (v : Val) (h : U ty v = true) (bs : Bytes)
-    (hc : Conf ty v bs) :
+theorem accept_same_as_marshal (strict : Bool) (ty : Ty) (v : Val) (h : U ty v = true)
+    (hd : nest ty ≤ Gen.c_thrift_maxDepth) (bs : Bytes) (hc : Conf ty v bs) :
     unmarshal .compact strict ty bs = unmarshal .compact strict ty (marshal .compact ty v) :=
-  accept_same strict ty v h bs _ hc (conf_marshal ty v h)
+  accept_same strict ty v h hd bs _ hc (conf_marshal ty v h)
+
+/-- the depth hypothesis is satisfiable for nested types (`[]map[string]struct{ A []int32 }`: 4 containers) -/
+example : nest (.slice (.map .str (.struct (.cons "A" "thrift:\"1\"" false (.slice (.int .i32)) .nil))))
+    ≤ Gen.c_thrift_maxDepth := by decide
 
 /-- **any order, any header form**: every field stream over any permutation of the specification's record list is a
 conformant encoding of the struct (so it is accepted with the result of the canonical one) -/
@@ -197,9 +211,14 @@ theorem bm_conf : Conf bm bmv [0x01, 0x31, 0x05, 0x01] := by
   · exact .cons ⟨[5], [1], ⟨5, rfl, by simp [IntKind.bits]; rfl⟩, ⟨true, rfl, rfl⟩, rfl⟩ .nil
 /-- hence accepted, as instances of the general theorem -/
 example (strict : Bool) : unmarshal .compact strict mb [0x01, 0x13, 0x01, 0x05] = .ok (norm mb mbv) :=
-  accept_unmarshal strict mb mbv (by decide) _ mb_conf
+  accept_unmarshal strict mb mbv (by decide) (by decide) _ mb_conf
 example (strict : Bool) : unmarshal .compact strict bm [0x01, 0x31, 0x05, 0x01] = .ok (norm bm bmv) :=
-  accept_unmarshal strict bm bmv (by decide) _ bm_conf
+  accept_unmarshal strict bm bmv (by decide) (by decide) _ bm_conf
+
+/-! ### not conformant, rejected since the fix 9c8d6b4: a "stop" byte with a non-zero delta nibble
+(`Stream` ends with the byte 0 only, and `FieldHdrB` never has the type nibble 0, so this is outside `Conf`) -/
+#guard un true (.struct .nil) [0x00] == "ok:t 0" && un true (.struct .nil) [0x10] == "err:deltaStop" &&
+  un false (.struct .nil) [0x10] == "err:deltaStop"
 
 /-! ### observation on bool ELEMENT values (outside the specification text implemented in `Enc.Spec.Thrift`) -/
 -- the specification writes a bool element as `1` / `0`; the reader takes every non-zero byte for true, so element
